@@ -52,6 +52,20 @@ pub fn flow_recv_response_after_timeout(method: &str) -> Flow<(), RecvResponse> 
     to_recv_response(f).expect("harness: reach RecvResponse")
 }
 
+/// Like flow_recv_response, with request-side conditions that already demand closing the connection:
+/// variant 1 = "connection: close" on the request, 2 = an HTTP/1.0 request (GET/HEAD/POST only), 3 = both.
+pub fn flow_recv_response_v(method: &str, variant: usize) -> Flow<(), RecvResponse> {
+    let mut b = Request::builder().method(Method::from_bytes(method.as_bytes()).unwrap()).uri("http://h.test/p");
+    if variant & 1 == 1 {
+        b = b.header("connection", "close");
+    }
+    if variant & 2 == 2 && matches!(method, "GET" | "HEAD" | "POST") {
+        b = b.version(Version::HTTP_10);
+    }
+    let f = Flow::new(b.body(()).unwrap()).expect("harness: flow");
+    to_recv_response(f).expect("harness: reach RecvResponse")
+}
+
 pub fn flow_recv_response(method: &str) -> Flow<(), RecvResponse> {
     let f = Flow::new(simple_request(method, "http://h.test/p")).expect("harness: flow");
     to_recv_response(f).expect("harness: reach RecvResponse")
